@@ -165,7 +165,7 @@ func entryAlphabet(tier string) []ent {
 	}
 	xb := ent{Name: "b", Type: tar.TypeReg, SzA: 1, SzB: 0, Mode: 0o4755, UID: 1000, GID: 2000, MTime: mt + 1, Xattrs: map[string]string{"user.k": "v", "user.e": ""}}
 	al := []ent{
-		reg("a", 0, 0), reg("a", 1, -1), reg("a", 1, 1), reg("a", 2, 1), // sizes 0, cs-1, cs+1, 2cs+1
+		reg("a", 0, 0), reg("a", 1, 1), reg("a", 2, 1), // sizes 0, cs+1, 2cs+1 (1 and cs below; cs-1 in the thorough tier)
 		xb,               // size cs, xattrs incl. an empty value, setuid, large ids
 		reg("d/a", 0, 1), // size 1, implicit parent
 		reg("./a", 0, 1), // "./" prefix; replaces an earlier a
@@ -179,7 +179,7 @@ func entryAlphabet(tier string) []ent {
 	}
 	if tier == "thorough" {
 		al = append(al,
-			reg("a", 0, 1), reg("a", 1, 0), reg("/a", 1, 0), reg("../a", 1, -1), reg("b", 0, 0), reg("d/a", 2, 1),
+			reg("a", 1, -1), reg("a", 0, 1), reg("a", 1, 0), reg("/a", 1, 0), reg("../a", 1, -1), reg("b", 0, 0), reg("d/a", 2, 1),
 			ent{Name: "a/", Type: tar.TypeDir, Mode: 0o755, MTime: mt + 3},
 			ent{Name: "d/a", Type: tar.TypeSymlink, Link: "../b", Mode: 0o777, MTime: mt + 7},
 			ent{Name: "b", Type: tar.TypeChar, Mode: 0o666, Major: 259, Minor: 300, MTime: mt + 8},
@@ -1543,7 +1543,7 @@ func main() {
 	runner.Main(runner.Check{
 		ID:    "C02",
 		Level: "exploration",
-		Rule: "inputs: every tar of <=3 members over the member alphabet (regular files a/b/d/a/./a//a/../a/'a/' with sizes {0,1,cs-1,cs,cs+1,2cs+1}, directories d/ a/ ./, symlink, hard links incl. a chain, char device, fifo, xattrs incl. an empty value, setuid, duplicate names, implicit parents; fixed distinct payload patterns) that archive/tar extraction semantics accept, x build {chunk 3,8} x {min-chunk 0,16,300} x {gzip, zstd:chunked} x prioritized {none, first file} x registry chunk {4,64} x chunk cache {memory, directory LRU=1, directory direct} x metadata store {memory, db}, served through memreg -> remote.Resolver -> Blob -> metadata reader -> reader (VerifyTOC) -> layer -> node tree -> go-fuse raw bridge; the complete view (cold walk, then warm walk with READ size chunk+1) must equal the archive/tar reference (lib/reftar). " +
+		Rule: "inputs: every tar of <=3 members over the member alphabet (regular files a/b/d/a/./a//a/../a/'a/' with sizes {0,1,cs,cs+1,2cs+1} (thorough: also cs-1 and more name/size pairs), directories d/ a/ ./, symlink, hard links incl. a chain, char device, fifo, xattrs incl. an empty value, setuid, duplicate names, implicit parents; fixed distinct payload patterns) that archive/tar extraction semantics accept, x build {chunk 3,8} x {min-chunk 0,16,300} x {gzip, zstd:chunked} x prioritized {none, first file} x registry chunk {4,64} x chunk cache {memory, directory LRU=1, directory direct} x metadata store {memory, db}, served through memreg -> remote.Resolver -> Blob -> metadata reader -> reader (VerifyTOC) -> layer -> node tree -> go-fuse raw bridge; the complete view (cold walk, then warm walk with READ size chunk+1) must equal the archive/tar reference (lib/reftar). " +
 			"histories: for 6 representative tars x build configs x runtime configs (thorough: x verify/skip-verify), explicit-state breadth-first search over {LOOKUP, READDIR, GETATTR, LIST/GETXATTR, READLINK, READ on the chunk/EOF boundary grid, Prefetch, BackgroundFetch, drop-chunk-cache} to depth 3 from the cold state (thorough: depth 4 for the 5 quick build configs with verification, depth 3 for the other 19 build configs); every reply and, after every history prefix, the complete view must equal the reference. distinct states = (cached chunks, compressed-cache entries, fetched size, memoised directories, instantiated inodes, one-shot flags); non-trivial = distinct states reached (histories), tars with >= 2 entries (inputs)",
 		Assumptions: []string{
 			"in-memory registry (lib/memreg), perfect server behaviour (deviations are C06's business)",
